@@ -668,6 +668,122 @@ func (c *c19) keybase(tier string) {
 	}
 	wg.Wait()
 	c.count("keybase programs (lazy, L=2)", n)
+	c.secpLifeCycle(mem, "in-memory")
+	c.secpLifeCycle(lazy, "lazy")
+}
+
+// secpLifeCycle: a secp256k1 key can only enter a keybase as an armored export (Create and
+// ImportPrivateKeyObject make ed25519 keys). The whole life cycle with such a key: import the armor,
+// list, sign (the signature verifies under the secp256k1 public key), re-encrypt, export both ways,
+// import the export into a second keybase, wrong passphrases everywhere, delete.
+func (c *c19) secpLifeCycle(mk func() (keys.Keybase, func()), backend string) {
+	fail := func(sig, f string, a ...interface{}) {
+		c.fail("C19|keybase|secp256k1|"+sig, backend+" keybase, secp256k1 key: "+fmt.Sprintf(f, a...), map[string]interface{}{"backend": backend})
+	}
+	priv := chain.Key(100)
+	addr := chain.Addr(100)
+	msg := []byte("keybase message")
+	armor, err := mintkey.EncryptArmorPrivKey(priv, "enc", "hint")
+	if err != nil {
+		fail("armor", "cannot armor the key: %v", err)
+		return
+	}
+	kb, cl := mk()
+	defer cl()
+	kb2, cl2 := mk()
+	defer cl2()
+	var perr string
+	func() {
+		defer func() {
+			if r := recover(); r != nil {
+				perr = fmt.Sprint(r)
+			}
+		}()
+		if _, err := kb.ImportPrivKey(armor, "bad", "pw"); err == nil {
+			fail("import-wrong-passphrase-accepted", "ImportPrivKey opened the armor with a wrong passphrase")
+			return
+		}
+		if l, _ := kb.List(); len(l) != 0 {
+			fail("failed-import-stored-a-key", "a refused import left %d keys", len(l))
+			return
+		}
+		kp, err := kb.ImportPrivKey(armor, "enc", "pw")
+		if err != nil {
+			fail("import-fails", "ImportPrivKey of an armored secp256k1 key fails: %v", err)
+			return
+		}
+		if !bytes.Equal(kp.GetAddress(), addr) || !bytes.Equal(kp.PublicKey.RawBytes(), chain.Pub(100).RawBytes()) {
+			fail("import-wrong-key", "imported key pair has address %s / another public key, want %s", kp.GetAddress(), addr)
+			return
+		}
+		if l, err := kb.List(); err != nil || len(l) != 1 || !bytes.Equal(l[0].GetAddress(), addr) {
+			fail("list", "List after the import: %v %v", l, err)
+			return
+		}
+		if _, _, err := kb.Sign(addr, "bad", msg); err == nil {
+			fail("sign-wrong-passphrase-accepted", "Sign accepted a wrong passphrase")
+			return
+		}
+		sig, pk, err := kb.Sign(addr, "pw", msg)
+		if err != nil || pk == nil || !independentVerify(chain.Pub(100), msg, sig) || !bytes.Equal(pk.RawBytes(), chain.Pub(100).RawBytes()) {
+			fail("sign", "Sign: err=%v, signature verifies under the secp256k1 key: %v", err, err == nil && independentVerify(chain.Pub(100), msg, sig))
+			return
+		}
+		if err := kb.Update(addr, "bad", "new"); err == nil {
+			fail("update-wrong-passphrase-accepted", "Update accepted a wrong passphrase")
+			return
+		}
+		if err := kb.Update(addr, "pw", "new"); err != nil {
+			fail("update-fails", "Update fails: %v", err)
+			return
+		}
+		if _, _, err := kb.Sign(addr, "pw", msg); err == nil {
+			fail("old-passphrase-still-opens", "the old passphrase still signs after Update")
+			return
+		}
+		obj, err := kb.ExportPrivateKeyObject(addr, "new")
+		if err != nil || !bytes.Equal(obj.RawBytes(), priv.RawBytes()) {
+			fail("export-object", "ExportPrivateKeyObject: err=%v, same key=%v", err, err == nil && bytes.Equal(obj.RawBytes(), priv.RawBytes()))
+			return
+		}
+		if _, err := kb.ExportPrivKeyEncryptedArmor(addr, "bad", "x", ""); err == nil {
+			fail("export-wrong-passphrase-accepted", "ExportPrivKeyEncryptedArmor accepted a wrong passphrase")
+			return
+		}
+		exp, err := kb.ExportPrivKeyEncryptedArmor(addr, "new", "enc2", "h")
+		if err != nil {
+			fail("export-armor", "ExportPrivKeyEncryptedArmor fails: %v", err)
+			return
+		}
+		kp2, err := kb2.ImportPrivKey(exp, "enc2", "pw2")
+		if err != nil || !bytes.Equal(kp2.GetAddress(), addr) {
+			fail("reimport", "importing the export into a second keybase: err=%v address=%s", err, kp2.GetAddress())
+			return
+		}
+		if o2, err := kb2.ExportPrivateKeyObject(addr, "pw2"); err != nil || !bytes.Equal(o2.RawBytes(), priv.RawBytes()) {
+			fail("reimport-wrong-key", "the re-imported key differs from the original (err=%v)", err)
+			return
+		}
+		if err := kb.Delete(addr, "bad"); err == nil {
+			fail("delete-wrong-passphrase-accepted", "Delete accepted a wrong passphrase")
+			return
+		}
+		if l, _ := kb.List(); len(l) != 1 {
+			fail("refused-delete-removed-the-key", "a refused Delete left %d keys", len(l))
+			return
+		}
+		if err := kb.Delete(addr, "new"); err != nil {
+			fail("delete-fails", "Delete fails: %v", err)
+			return
+		}
+		if l, _ := kb.List(); len(l) != 0 {
+			fail("delete-left-the-key", "%d keys after Delete", len(l))
+		}
+	}()
+	if perr != "" {
+		fail("panic", "an operation panicked: %.200s", perr)
+	}
+	c.count("keybase life cycle of a secp256k1 key ("+backend+")", 1)
 }
 
 // C19 entry point.
